@@ -23,8 +23,8 @@ type meshStat struct {
 	Degen     int    `json:"degen"`     // triangles with two identical vertices / zero-length segments
 	VolPos    bool   `json:"volpos"`    // signed volume (3D) is positive
 	Outside   int    `json:"outside"`
-	MaxF      int64  `json:"maxf"`   // 2D: max |f(endpoint)| / h * 1e6 ; 3D: 0
-	Circle    int64  `json:"circle"` // 2D circle: max |f| 8(R-h) / h^2 * 1e6
+	MaxF      int64  `json:"maxf"`     // 2D: max |f(endpoint)| / h * 1e6 ; 3D: 0
+	Circle    int64  `json:"circle"`   // 2D circle: max |f| 8(R-h) / h^2 * 1e6
 	PerimErr  int64  `json:"perimerr"` // 2D: |length - perimeter| / perimeter * 1e6 (0 if unknown)
 	HasPerim  bool   `json:"hasperim"`
 	Seq       int    `json:"seq"`
@@ -131,11 +131,12 @@ func stat2(name, param string, s sdf.SDF2, which string, cells int, radius, peri
 
 func c05Scenes(args []string) error {
 	rnd := rand.New(rand.NewSource(seed()))
-	// a ball whose surface clips the corner of an octree cube by a few millionths of its side
+	// a ball (well inside its bounding box) whose surface clips the corner (8,8,8) of an octree cube of
+	// level n by a few millionths of its side: lattice origin 0, half-cell 1 (box of 12, centre 6.06, 6 cells)
 	for _, e := range []float64{3e-6, 1e-5, 2e-5} {
 		for n := 1; n <= 3; n++ {
-			bb := sdf.NewBox3(v3.Vec{X: 4.04, Y: 4.04, Z: 4.04}, v3.Vec{X: 8, Y: 8, Z: 8})
-			emit(stat3("tight-ball", fmtf(float64(n), e), ball3{v3.Vec{X: 3, Y: 3, Z: 3}, 5*math.Sqrt(3) + e*math.Pow(2, float64(n)), bb}, "mco", 4))
+			bb := sdf.NewBox3(v3.Vec{X: 6.06, Y: 6.06, Z: 6.06}, v3.Vec{X: 12, Y: 12, Z: 12})
+			emit(stat3("tight-ball", fmtf(float64(n), e), ball3{v3.Vec{X: 6.5, Y: 6.5, Z: 6.5}, 1.5*math.Sqrt(3) + e*math.Pow(2, float64(n)), bb}, "mco", 6))
 		}
 	}
 	reps := 3
